@@ -16,10 +16,12 @@ import (
 	"flag"
 	"fmt"
 	"io"
+	"k8s.io/apimachinery/pkg/api/meta"
 	"math/rand"
 	"net/http"
 	"reflect"
 	"sort"
+	"strconv"
 	"strings"
 	"sync"
 	"time"
@@ -535,17 +537,32 @@ func runTypedOverflow(w *ndWriter, p typedPkg, seed int64) {
 // ---- requests
 
 type recTransport struct {
-	mu   sync.Mutex
-	reqs []*http.Request
+	mu    sync.Mutex
+	reqs  []*http.Request
+	items int // objects the fake API server holds for the resource
 }
 
+// RoundTrip is a minimal API server: a list honours limit/continue (chunked lists), a watch is an empty stream.
 func (t *recTransport) RoundTrip(r *http.Request) (*http.Response, error) {
 	t.mu.Lock()
 	t.reqs = append(t.reqs, r)
 	t.mu.Unlock()
-	body := `{"kind":"List","apiVersion":"v1","metadata":{"resourceVersion":"7"},"items":[]}`
-	if r.URL.Query().Get("watch") == "true" || strings.Contains(r.URL.Path, "/watch/") {
-		body = ""
+	q := r.URL.Query()
+	body := ""
+	if !(q.Get("watch") == "true" || strings.Contains(r.URL.Path, "/watch/")) {
+		start, end, cont := 0, t.items, ""
+		if c := q.Get("continue"); strings.HasPrefix(c, "c") {
+			start, _ = strconv.Atoi(c[1:])
+		}
+		if l, err := strconv.Atoi(q.Get("limit")); err == nil && l > 0 && start+l < end {
+			end = start + l
+			cont = fmt.Sprintf(`,"continue":"c%d"`, end)
+		}
+		var items []string
+		for i := start; i < end; i++ {
+			items = append(items, fmt.Sprintf(`{"metadata":{"name":"o%d","namespace":"n1","resourceVersion":"5"}}`, i))
+		}
+		body = fmt.Sprintf(`{"kind":"List","apiVersion":"v1","metadata":{"resourceVersion":"7"%s},"items":[%s]}`, cont, strings.Join(items, ","))
 	}
 	return &http.Response{StatusCode: 200, Status: "200 OK", Proto: "HTTP/1.1", ProtoMajor: 1, ProtoMinor: 1,
 		Header: http.Header{"Content-Type": []string{"application/json"}}, Body: io.NopCloser(bytes.NewBufferString(body)), Request: r}, nil
@@ -553,7 +570,8 @@ func (t *recTransport) RoundTrip(r *http.Request) (*http.Response, error) {
 
 func runTypedRequests(w *ndWriter, p typedPkg) {
 	for _, ns := range []string{"", "n1", "default"} {
-		rt := &recTransport{}
+		// the third namespace holds more objects than any plausible page size
+		rt := &recTransport{items: map[string]int{"": 3, "n1": 40, "default": 1300}[ns]}
 		cs, err := kubernetes.NewForConfig(&rest.Config{Host: "http://fake.invalid", Transport: rt})
 		if err != nil {
 			w.write2(fmt.Sprintf(`{"k":"typed.error","pkg":%q,"err":%q}`, p.name, err.Error()))
@@ -561,7 +579,11 @@ func runTypedRequests(w *ndWriter, p typedPkg) {
 		}
 		cl := p.newClient(cs, ns)
 		ctx, cancel := context.WithTimeout(context.Background(), 2*time.Second)
-		_, lerr := cl.List(ctx, metav1.ListOptions{})
+		lobj, lerr := cl.List(ctx, metav1.ListOptions{})
+		listn := -1
+		if lerr == nil && lobj != nil {
+			listn = meta.LenList(lobj)
+		}
 		wi, werr := cl.Watch(ctx, metav1.ListOptions{ResourceVersion: "7", Watch: true})
 		if wi != nil {
 			wi.Stop()
@@ -573,12 +595,17 @@ func runTypedRequests(w *ndWriter, p typedPkg) {
 		}
 		cancel()
 		rt.mu.Lock()
-		for i, r := range rt.reqs {
+		nlist, nwatch := 0, 0
+		for _, r := range rt.reqs {
 			op := "list"
-			if i == 1 {
+			if r.URL.Query().Get("watch") == "true" || strings.Contains(r.URL.Path, "/watch/") {
+				nwatch++
 				op = "watch"
-			} else if i > 1 {
-				op = "watch2"
+				if nwatch > 1 {
+					op = "watch2"
+				}
+			} else {
+				nlist++
 			}
 			var q []string
 			for k, vs := range r.URL.Query() {
@@ -587,10 +614,10 @@ func runTypedRequests(w *ndWriter, p typedPkg) {
 				}
 			}
 			sort.Strings(q)
-			w.write2(fmt.Sprintf(`{"k":"typed.req","pkg":%q,"ns":%q,"op":%q,"method":%q,"path":%q,"query":[%s],"listerr":%v,"watcherr":%v}`,
-				p.name, ns, op, r.Method, r.URL.Path, strings.Join(q, ","), lerr != nil, werr != nil))
+			w.write2(fmt.Sprintf(`{"k":"typed.req","pkg":%q,"ns":%q,"op":%q,"method":%q,"path":%q,"query":[%s],"listerr":%v,"watcherr":%v,"listn":%d,"items":%d}`,
+				p.name, ns, op, r.Method, r.URL.Path, strings.Join(q, ","), lerr != nil, werr != nil, listn, rt.items))
 		}
-		if len(rt.reqs) != 3 {
+		if nlist < 1 || nwatch != 2 {
 			w.write2(fmt.Sprintf(`{"k":"typed.reqcount","pkg":%q,"ns":%q,"n":%d}`, p.name, ns, len(rt.reqs)))
 		}
 		rt.mu.Unlock()
